@@ -130,7 +130,8 @@ pub fn calibrate() -> CalibResult {
 }
 
 fn calibrate_one(v: &str) -> Result<(), String> {
-    let base = PathBuf::from(SUITE_DIR).join(v);
+    let suite = std::env::var("VERIF_SUITE_DIR").unwrap_or_else(|_| SUITE_DIR.to_string());
+    let base = PathBuf::from(suite).join(v);
     let sreq = read(&base.with_extension("sreq"))?;
     let creq = read(&base.with_extension("creq"))?;
     let sts = read(&base.with_extension("sts"))?;
